@@ -413,3 +413,49 @@ M("m34c", "C06", "R6.6", SAVI, "        super()._initialize_solver_state_element
   "constructor installs a reversed batch order")
 M("m34d", "C06", "R6.1", SAVI, "            updated_values = current_values.at[batch_indices].set(", "            updated_values = current_values.at[batch_indices + 1].set(", "values scattered to the wrong rows")
 B("b27", ["C06", "C03"], SAVI, "        return values[jnp.argsort(shuffled_state_idxs)]", "        return values[jnp.argsort(shuffled_state_idxs)] + 0", "no-op arithmetic")
+
+# =============================================================================== C01 / C04
+M("m06b", "C01", "R1.1", VI,
+  '''                "max delta",
+                lambda eps, gamma: eps * (1 - gamma) / gamma if gamma != 1 else eps,''',
+  '''                "max delta",
+                lambda eps, gamma: eps,''', "VI: max_diff threshold -> eps (looser for gamma > 1/2)")
+M("m06c", "C01", "R1.1", VI,
+  '''                "span",
+                lambda eps, gamma: eps * (1 - gamma) / gamma if gamma != 1 else eps,''',
+  '''                "span",
+                lambda eps, gamma: 2 * eps * (1 - gamma) / gamma if gamma != 1 else eps,''', "VI: span threshold doubled")
+M("m12b", "C01", "R1.2", VI, "        return jnp.max(jnp.abs(new_values - old_values))", "        return jnp.max(new_values - old_values)", "_get_max_diff without abs")
+M("m13b", "C01", "R1.2", VI, "        return jnp.max(delta) - jnp.min(delta)", "        return jnp.max(delta) - jnp.min(jnp.abs(delta))", "_get_span with min(abs)", survives="no")
+M("m14", "C01", "R1.3", SAVI,
+  "        # Extract policy if converged or on final iteration\n        logger.info(\"Extracting policy\")\n        self.policy = self._extract_policy()\n        logger.info(\"Policy extracted\")\n\n        logger.success(\"Semi-async value iteration completed\")",
+  "        logger.success(\"Semi-async value iteration completed\")",
+  "SAVI: policy never extracted after the loop")
+M2("m14b", "C01", "R1.3", [
+    (SAVI, "            new_values, conv = self._iteration_step()\n            self.values = new_values\n",
+     "            new_values, conv = self._iteration_step()\n            self.policy = self._extract_policy()\n            self.values = new_values\n", None),
+    (SAVI, "        logger.info(\"Extracting policy\")\n        self.policy = self._extract_policy()\n        logger.info(\"Policy extracted\")\n\n        logger.success(\"Semi-async value iteration completed\")",
+     "        logger.success(\"Semi-async value iteration completed\")", None)],
+   "SAVI: policy extracted inside the loop before the last assignment of the values")
+M("m14c", "C01", "R1.3", RVI, "        self.policy = self._extract_policy()\n        logger.info(\"Policy extracted\")\n",
+  "        self.policy = self._extract_policy()\n        self.values = self.values - self.values[0]\n        logger.info(\"Policy extracted\")\n",
+  "RVI: values rewritten after the policy was extracted")
+B("b28", ["C01", "C08"], VI,
+  '''                "span",
+                lambda eps, gamma: eps * (1 - gamma) / gamma if gamma != 1 else eps,''',
+  '''                "span",
+                lambda eps, gamma: (eps - eps * gamma) / gamma if gamma != 1 else eps,''', "threshold with the product expanded")
+B("b29", ["C01"], VI,
+  '''                "span",
+                lambda eps, gamma: eps * (1 - gamma) / gamma if gamma != 1 else eps,''',
+  '''                "span",
+                lambda eps, gamma: eps * (1 - gamma) / (2 * gamma) if gamma != 1 else eps / 2,''', "stricter threshold (half): bound still holds, C08 reports it")
+M("m22", "C04", "R4.1", RVI, "        new_values = new_values - self.gain\n", "", "RVI: gain never subtracted (policy test still passes)")
+M("m23", "C04", "R4.1", RVI, "        new_values = new_values - self.gain\n", "        new_values = new_values + self.gain\n", "RVI: gain added")
+M("m24", "C04", "R4.2", RVI, "        self.gain = new_values[-1]\n", "", "RVI: gain never updated")
+M("m24b", "C04", "R4.2", RVI, "        self.gain = new_values[-1]\n", "        self.gain = new_values.max()\n", "RVI: gain from a moving reference (max)")
+M("m24c", "C04", "R4.3", RVI, "        span = self._get_span(new_values, self.values)\n", "        span = self._get_span(new_values, new_values)\n", "RVI: span of the iterate with itself", survives="no")
+M("m24d", "C04", "R4.3", RVI, "        if not self.gamma == 1.0:\n            raise ValueError(\"gamma must be 1.0 for relative value iteration\")\n", "", "RVI: gamma == 1 guard deleted")
+B("b10", ["C04", "C08", "C02"], RVI, "        new_values = new_values - self.gain\n\n        span = self._get_span(new_values, self.values)\n\n        self.gain = new_values[-1]\n",
+  "        gain = self.gain\n        self.gain = new_values[-1] - gain\n        new_values = new_values - gain\n\n        span = self._get_span(new_values, self.values)\n",
+  "gain read before the subtraction, updated from the raw sweep")
